@@ -49,7 +49,8 @@ def main():
                 tags = re.search(r'-tags (\S+)', cmd.split('#')[0])
                 run = re.search(r"-run '?\"?([^'\" ]+)", cmd).group(1)
                 shutil.copy(f'{out}/demo{n}_test.go', f'{wt}/{pkg}/zz_seed_demo_test.go')
-                demo = f"go test -count=1 {'-tags '+tags.group(1) if tags else ''} -run '{run}' {pkg}/"
+                race = '-race' if re.search(r'go test [^#]*-race', cmd) else ''
+                demo = f"go test {race} -count=1 {'-tags '+tags.group(1) if tags else ''} -run '{run}' {pkg}/"
                 demofile = f'demo{n}_test.go'
             rc_with, o_with = sh(demo, wt, env)
             sh('git checkout -- .', wt)
